@@ -63,7 +63,7 @@ ASSUMPTIONS = [
     "histogram.add: edges that differ by less than 1e-6 relative but are not identical (float "
     "neighbours) may be accepted or rejected (add documents an isclose comparison); the type of the "
     "exception for a non-histogram operand is not judged",
-    "graph field names: coordinates from three name sets (one with names that are prefixes of each "
+    "graph field names: coordinates from four name sets (two with names that are prefixes of each "
     "other), error fields 'error_<coordinate>' with suffix '', '_low', '_high'; invalid namings are "
     "outside the quantifier",
     "iter_cells with invalid index ranges or with coord_ranges is judged only on what it yields "
@@ -95,7 +95,7 @@ def describe(tier):
     d = M.dom(tier)
     return ("histograms: dimensions 1..3, bins per axis 1..%s, contents %r exhaustive up to %d cells "
             "(3 index codings beyond), %d/%d/%d edge-pool combinations in 1/2/3 dimensions; targets %r; "
-            "weights %r; graphs: 1..3 coordinates, 0..3 error fields in every valid order over 3 name "
+            "weights %r; graphs: 1..3 coordinates, 0..3 error fields in every valid order over 4 name "
             "sets, scale in {None, 0, 2, -0.5}, %r points; iter_cells index ranges: every (low, up) in "
             "{None, -1, 0..n} x {None, 0..n+1} per axis; duplicate_last_bin True/False by element and by "
             "context" % (sorted(d["maxbins"].items()), d["contents"], d["max_exhaustive"],
